@@ -41,6 +41,10 @@ pub fn idle_lines() -> Vec<&'static str> {
         "DIM E(1,9223372036854775807)",
         "IF 1 THEN PRINT ((1/0))",
         "IF 0 THEN PRINT 1 ELSE RETURN",
+        // STOP as the statement of a clause; a loop opened at the prompt whose line is then replaced
+        // by a shorter one
+        "IF 1 THEN STOP",
+        "FOR I=1 TO 2: PRINT I",
         "DIM D(1,1,1,1,1,1,1,1,1,1,1,1,1,1,1,1,1,1,1,1)",
         "A(1)=1",
         "PRINT A(4294967296)",
@@ -163,6 +167,25 @@ pub fn check_transition(t: &Transition, s: &mut Sess) -> Vec<Violation> {
             }
         }
         CallResult::Ok => {}
+    }
+    // wedged: asked to go on while running with the cursor at (or beyond) the end of its line - so
+    // there is no statement left to evaluate there - the interpreter neither moves to another line
+    // nor goes idle, emits nothing and is left exactly as it was; being deterministic it will
+    // answer every later call the same way
+    if matches!(t.ev, Ev::Cont) && matches!(t.result, CallResult::Ok) && t.before.state == format!("{:?}", InterpreterState::Running) && s.recs.is_empty() {
+        let on_line = match t.before.location_line {
+            Some(l) => t.before.lines.iter().find(|(n, _)| *n == l).map(|(_, toks)| toks.len()).unwrap_or(0),
+            None => t.before.immediate_line.len(),
+        };
+        if t.before.location_token_index >= on_line && guarded(|| s.it.verif_snapshot()).ok().as_ref() == Some(t.before) {
+            let r = s.apply(&Ev::Cont);
+            if r == CallResult::Ok && s.recs.is_empty() && guarded(|| s.it.verif_snapshot()).ok().as_ref() == Some(t.before) {
+                out.push(mk(
+                    "wedged: a continue call at the end of a line goes nowhere".into(),
+                    format!("in state Running at line {:?}, token {} of {} (nothing left to evaluate there), continue_evaluating returns Ok twice in a row without moving on, going idle, emitting output or changing any state: the session can never get back to the prompt by itself", t.before.location_line, t.before.location_token_index, on_line),
+                ));
+            }
+        }
     }
     if !matches!(t.result, CallResult::Panic(_)) {
         if let Ok(snap) = guarded(|| s.it.verif_snapshot()) {
@@ -374,9 +397,14 @@ pub fn depth_grid() -> Vec<usize> {
 
 /// Runs the probe grid; returns (children run, violations).
 pub fn recursion_probes(target: &str) -> (u64, Vec<Violation>) {
+    recursion_probes_for(target, &ROUTES)
+}
+
+/// The same grid over some of the routes.
+pub fn recursion_probes_for(target: &str, routes: &[&'static str]) -> (u64, Vec<Violation>) {
     let exe = std::env::current_exe().unwrap();
     let mut jobs = vec![];
-    for route in ROUTES {
+    for route in routes.iter().copied() {
         for d in depth_grid() {
             for stack in ["main", "1024"] {
                 jobs.push((route, d, stack));
